@@ -232,7 +232,7 @@ theorem wrap_nonneg {n : Nat} {K : SCtx} {k : Ctx} {sub : Bool} {c : Cmd} {s s0 
               rw [mwrap_fire hao' hok (hign.trans hi') hrt, swrap_fire hic hfail hi' hst]
               have hee : (absEnvC s1).errexit = true := he
               rw [if_pos he, if_pos hee]
-              exact ⟨rfl, hnf.1, rfl, rfl, rfl, hd.csub, hd.ht, hd.cerr⟩
+              exact ⟨rfl, hnf.1, rfl, rfl, rfl, hd.csub, hd.ht, hd.cerr, hnp⟩
           · -- errexit is off: the test changes nothing on either side
             have he' : s1.errexit = false := by simpa using he
             have hee : (absEnvC s1).errexit = false := he'
@@ -306,12 +306,12 @@ theorem wrap_nonneg {n : Nat} {K : SCtx} {k : Ctx} {sub : Bool} {c : Cmd} {s s0 
           · have he' : s1.errexit = false := by simpa using he
             rw [if_neg (by simp [he'])]; exact hplain
   | exit =>
-    obtain ⟨hx, hr, hs, ho, ht, hcs, hht, hce⟩ := h
+    obtain ⟨hx, hr, hs, ho, ht, hcs, hht, hce, hnp⟩ := h
     have hrt : run n (.trap s1.callbackErr) s1 = some s1 := by
       rw [hce]; exact run_trap_nil hn s1
     rw [swrap_other (by simp)]
     have hplain : Post K k sub True (tailOkC c = true) s { s1 with lastExit := s1.exit } .exit e1 :=
-      ⟨hx, hr, hs, ho, ht, hcs, hht, hce⟩
+      ⟨hx, hr, hs, ho, ht, hcs, hht, hce, hnp⟩
     by_cases hao : c.isAndOr = true
     · rw [mwrap_andor hao]; exact hplain
     · by_cases hok : s1.exit.ok = true
@@ -320,7 +320,7 @@ theorem wrap_nonneg {n : Nat} {K : SCtx} {k : Ctx} {sub : Bool} {c : Cmd} {s s0 
         · rw [mwrap_skip (Or.inr hne)]; exact hplain
         · rw [mwrap_fire (by simpa using hao) (by simpa using hok) (by simpa using hne) hrt]
           by_cases he : s1.errexit = true
-          · rw [if_pos he]; exact ⟨rfl, hr, hs, ho, ht, hcs, hht, hce⟩
+          · rw [if_pos he]; exact ⟨rfl, hr, hs, ho, ht, hcs, hht, hce, hnp⟩
           · have he' : s1.errexit = false := by simpa using he
             rw [if_neg (by simp [he'])]; exact hplain
 
@@ -328,7 +328,7 @@ theorem wrap_pending {n : Nat} {K : SCtx} {k : Ctx} {sub : Bool} {c : Cmd} {s s0
     {fl : Flow} {e1 : Env} {q : Prop} (hn : 1 ≤ n)
     (h : Pending K k sub c s0 s1 fl e1) :
     Rel (Post K k sub True q s) (mwrap n c s1) (swrap n k c (fl, e1)) := by
-  obtain ⟨hfl, hsoft, he, hd, _, _, hr, hx, hee, hne, hc0⟩ := h
+  obtain ⟨hfl, hsoft, he, hd, _, hnp, hr, hx, hee, hne, hc0⟩ := h
   subst hfl; subst he
   have hic : isChecked c = true := by cases c <;> simp [softCmd] at hsoft <;> rfl
   have hao : c.isAndOr = false := by cases c <;> simp [softCmd] at hsoft <;> rfl
@@ -344,6 +344,6 @@ theorem wrap_pending {n : Nat} {K : SCtx} {k : Ctx} {sub : Bool} {c : Cmd} {s s0
   have hok : s1.exit.ok = false := by simp [Exit.ok, hc0]
   have hee' : (absEnvC s1).errexit = true := hee
   rw [mwrap_fire hao hok hne hrt, swrap_fire hic hc0 hi hst, if_pos hee, if_pos hee']
-  exact ⟨rfl, hr, rfl, rfl, rfl, hd.csub, hd.ht, hd.cerr⟩
+  exact ⟨rfl, hr, rfl, rfl, rfl, hd.csub, hd.ht, hd.cerr, hnp⟩
 
 end ShVerif.C26
